@@ -90,8 +90,8 @@ pub fn property() -> Property {
         subs: vec![prop_sub(
             "closed_loop",
             "C07 connections in which the peer waits for the reply to every management query before sending on; queries before the first request, between preamble records, inside bodies (handler blocked in read / fill_buf / writeable), right after a request's last record (same transport read as its end), after the last request; all handler scripts, reader/writer scripts; non-trivial = the peer actually waited on a query that has neighbouring records and the task parked at least once; distinct = hash of the case",
-            2_000,
-            80_000,
+            20_000,
+            600_000,
             |_| conn::conn_case(3, false, prop::bool::weighted(0.85).boxed()),
             test,
         )],
